@@ -24,9 +24,11 @@ BUDGET = {'quick': 240, 'thorough': 3000}
 
 
 def shards(tier):
-    return [s for s in e1.std_shards(tier)
-            if not (s[0] == 'S' and s[2] > 10) and not (s[0] == 'F' and s[3] == 'interordinal'
-                                                          and s[1] > 5)]
+    sh = [s for s in e1.std_shards(tier, with_p=True)
+          if not (s[0] == 'S' and s[2] > 10) and not (s[0] == 'F' and s[3] == 'interordinal'
+                                                      and s[1] > 5)]
+    # wide tables: only paddings that keep the intents small (blank / copy columns)
+    return [s for s in sh if s[0] != 'P' or s[4] in ('blank', 'copy')]
 
 
 def check_case(case, ctr):
@@ -36,8 +38,6 @@ def check_case(case, ctr):
     if al is None:
         return [e1.misaligned(ID, case)]
     lat = case.lat
-    if case.m > 10:
-        return V
 
     def bad(clause, exp, got, **kw):
         V.append(common.violation(ID, clause, case.ident(**kw), exp, got,
@@ -45,13 +45,18 @@ def check_case(case, ctr):
                                   'print(list(x.attributes()), x.minimal())\n'))
 
     # a second lattice of the same table on which minimal() is asked FIRST
-    first_min = [c.minimal() for c in case.fresh_ctx().lattice] if case.variant == 'fresh' else None
-    other = list(case.fresh_ctx().lattice) if case.variant == 'fresh' else None
+    small = all(len(it) <= 12 or not ex for ex, it in ref.concepts)
+    first_min = [c.minimal() for c in case.fresh_ctx().lattice] \
+        if case.variant == 'fresh' and small else None
+    other = list(case.fresh_ctx().lattice) if case.variant == 'fresh' and small else None
     if other is not None:
         for c in other:
             c.minimal()
     for i, c in enumerate(al):
         extent, intent = ref.concepts[i]
+        if len(intent) > 12 and extent:
+            ctr['skipped_large_intents'] += 1     # the oracle walks the powerset of the intent
+            continue
         if extent:
             gens = [b for r in range(len(intent) + 1)
                     for b in itertools.combinations(sorted(intent), r)
